@@ -170,6 +170,19 @@ def stepCore (r : Run) : DOp → Run
       | _ => { r with st := st', raw := r.raw.push .err, outs := r.outs.push "?" }
     | none =>
       let (c', res) := exec r.st.coll c args
+      -- `map_keys` / `set_to_array`: the order of the real hash container is unspecified and the
+      -- harness takes the ascending order of the RENAMED texts; the model's handles are numbered
+      -- by allocation, so the ascending order has to be taken after renaming here as well
+      let c' :=
+        match res, (c == .mapKeys || c == .setToArray) with
+        | .val (some h), true =>
+          match tget c'.tbl h with
+          | some (.list l) =>
+            let names := see r.names c'.tbl h
+            let key (i : Item) : String := String.ofList (rename names i.render)
+            { c' with tbl := tinsert c'.tbl h (.list ((l.toArray.qsort fun a b => key a < key b).toList)) }
+          | _ => c'
+        | _, _ => c'
       match res with
       | .val o => pushVal r { r.st with coll := c' } o
       | .err => { r with st := { r.st with coll := c' }, raw := r.raw.push .err, outs := r.outs.push "E" }
